@@ -161,4 +161,5 @@ s = SendUnit(keep=skeep('C02.'))
 s.mutants = SEND_MUTANTS['C02']
 m = MQUnit(keep=keep_for('C02.'))
 m.mutants = tuple(x for x in MQUnit.mutants if 'C02' in x[4])
-UNITS = [r, s, m, WireLemmas(), LemmaUnit('C02.once lemma', once_lemmas), AssemblyUnit()]
+from .sendwhole import SendGlue
+UNITS = [r, s, m, WireLemmas(), LemmaUnit('C02.once lemma', once_lemmas), AssemblyUnit(), SendGlue()]
